@@ -62,6 +62,12 @@ var totalSmall = overlayTest{Name: "snap-total-small", Level: "bounded", Src: "c
 var ringAssembly = overlayTest{Name: "ring-assembly-small-alphabet", Level: "bounded", Src: "c06_ring_assembly_test.go", PkgRel: "snap", Run: "^TestGvcC06RingAssembly$",
 	Bound: "bounded stand-in for the ring assembly: the real cleanupNewRing (kmpDeduplicate + splitRing) and kmpDeduplicate on EVERY ring without equal neighbours of length 0..15 (quick) / 0..18 (thorough) over 3 pixel centres and 0..10 / 0..12 over 4, as outer and as inner ring, plus 100000 / 1500000 pseudo-random zig-zag rings of 4..40 vertices over 6 points and 600000 / 8000000 word rings (a random word repeated and reversed, 8..47 vertices); per input: no panic, returns within 5 s, every returned vertex is an input vertex"}
 
+var c05Rings = overlayTest{Name: "ring-clauses-small", Level: "bounded", Src: "c05_rings_small_test.go", PkgRel: "snap", Run: "^TestGvcC05RingsSmall$",
+	Bound: "bounded stand-in for the ring clauses of C05 (ring assembly, outside the verifier's reach): the real SnapPolygon on every single ring of 3..5 (quick) / 3..6 (thorough) vertices over a 3x3 lattice of pixel centres and on 30000 / 400000 random polygons of 1..3 rings over a 6x6 lattice, id sets {1} and {0,1}, all four flag combinations; per returned polygon: orientation of rings with non-zero area, no repeated closing vertex, no equal neighbours, no vertex visited twice, at least three vertices without keep-points-and-lines, and the with/without relation of that option. Dyadic grid: float/integer conversions are exact, defect F4 is outside this domain"}
+
+var c08Independence = overlayTest{Name: "alone-vs-together-small", Level: "bounded", Src: "c08_independence_small_test.go", PkgRel: "snap", Run: "^TestGvcC08Independence$",
+	Bound: "bounded stand-in for the second sentence of C08 (a relation between two executions): the real SnapPolygon on every single ring of 3..5 (quick) / 3..6 (thorough) vertices over a 3x3 lattice of centres, corners and off-centre points, and on 30000 / 400000 random polygons of 1..3 rings over a 96x96 lattice, all four flag combinations, on a round dyadic grid with two tile matrices: result[id] for {id} alone must equal result[id] for {0,1}"}
+
 func init() {
 	propertyPlans["C06"] = &PropertyPlan{ID: "C06",
 		AlsoFuncs: []string{"snap.SnapPolygon", "mapslicehelp.RemoveSequences", "mapslicehelp.LastMatch", "mapslicehelp.DeleteFromSliceByIndex", "mapslicehelp.ReverseClone", "snap.ringsAreEqual", "snap.kmpSearchAll"},
@@ -77,16 +83,17 @@ func init() {
 	}
 	propertyPlans["C08"] = &PropertyPlan{ID: "C08",
 		NotDecided: []string{
-			"second sentence (the geometry for a tile matrix is identical whether requested alone or together with others): a relation between two executions; what is proved per call is that the lists of the descent for a level are exactly the stored pixels of that level met by the edge (C02 contracts), that per-level results never share a backing array (alias discipline of the verifier: append to a re-sliced slice is rejected), and the id <-> level mapping",
+			"second sentence (the geometry for a tile matrix is identical whether requested alone or together with others): a relation between two executions, only the bounded stand-in alone-vs-together-small; what is proved per call is that the lists of the descent for a level are exactly the stored pixels of that level met by the edge (C02 contracts), that per-level results never share a backing array (alias discipline of the verifier: append to a re-sliced slice is rejected), and the id <-> level mapping",
 			"that the set of stored pixels of a coarser level does not depend on the deepest level: insertCoord is proved to store, per level, the pixel deepest/2^(deepest-level) with the grid's extent and centre, but the comparison of two indexes built at different depths is not stated as a lemma"},
 		Assumptions: []string{"preconditions of SnapPolygon's contract"},
-		Extra:       func(cc *checkCtx) *extraResult { return cc.runOverlayTests([]overlayTest{descentLattice}) },
+		Extra:       func(cc *checkCtx) *extraResult { return cc.runOverlayTests([]overlayTest{descentLattice, c08Independence}) },
 	}
 	propertyPlans["C05"] = &PropertyPlan{ID: "C05",
 		NotDecided: []string{
-			"orientation, closure, no repeated vertex, at least three vertices per ring, shell first: properties of the unverified ring assembly (trusted leaves); known defect F4 (float round trip in isHitMultiple) lives there",
-			"the keep-points-and-lines relation between two runs (with and without the option)"},
-		Assumptions: []string{"preconditions of SnapPolygon's contract", "ring assembly leaves trusted only for outersToPolygons: one polygon per outer ring; matchInnersToPolygons: never fewer polygons than it was given"},
+			"orientation, closure, no repeated vertex, at least three vertices per ring, shell first: properties of the unverified ring assembly (trusted leaves), only the bounded stand-in ring-clauses-small on a dyadic grid; known defect F4 (float round trip in isHitMultiple) lives there and is outside that stand-in's domain",
+			"the keep-points-and-lines relation between two runs (with and without the option): only the bounded stand-in ring-clauses-small"},
+		Assumptions: []string{"preconditions of SnapPolygon's contract", "matchInnersToPolygons is trusted for: never fewer polygons than it was given"},
+		Extra:       func(cc *checkCtx) *extraResult { return cc.runOverlayTests([]overlayTest{c05Rings}) },
 	}
 	propertyPlans["C03"] = &PropertyPlan{ID: "C03",
 		NotDecided: []string{
